@@ -52,6 +52,10 @@ def search(seed=0, max_calls=6):
                             n_calls_made = len(out.get("calls", []))
                             if where == "update" and kind == "error" and n_calls_made > at and out["error"] != "Stop":
                                 bad.append(dict(case, problem=f"the error raised by update call {at} did not propagate out of the run (run ended with {out['error']!r})"))
+                            n_therm_calls_ = 3 if skip else 0
+                            if where == "update" and kind == "interrupt" and n_calls_made > at >= n_therm_calls_ and out["error"] is None and out.get("generated") is not True:
+                                bad.append(dict(case, problem=f"a run cancelled in the recorded stage reports that no data was generated (run() returned {out.get('generated')!r}): "
+                                                              "the caller then returns no partial solution"))
                             if where == "update" and kind == "interrupt" and n_calls_made > at and out["error"] not in (None,):
                                 bad.append(dict(case, problem=f"a cancellation during update call {at} escaped as {out['error']!r} instead of ending the run"))
                             # cancellation during thermalisation must not be followed by a recorded stage
@@ -96,6 +100,28 @@ def solve_cases():
         left = sorted(f for f in os.listdir(td) if f.endswith(".tmp"))
         if left:
             bad.append(dict(case, problem=f"temporary files remain: {left}"))
+        # Ctrl-C in the recorded stage of a real solve: a usable partial solution comes back and can be reloaded
+        hits = [0]
+
+        def eps(r, *, t):
+            if t > 0.085:
+                raise KeyboardInterrupt()
+            return 1.0
+        p3 = os.path.join(td, "cancel.h5")
+        try:
+            part = tdgl.solve(dev, tdgl.SolverOptions(solve_time=5.0, output_file=p3, save_every=3, adaptive=False, dt_init=1e-2, pause_on_interrupt=False),
+                              applied_vector_potential=0.1, disorder_epsilon=eps)
+            n += 1
+            if part is None:
+                bad.append(dict(problem="a real solve cancelled with Ctrl-C in the recorded stage returned None instead of the partial solution"))
+            else:
+                back = tdgl.Solution.from_hdf5(part.path)
+                if back.data_range != part.data_range:
+                    bad.append(dict(problem="partial solution of a cancelled run does not reload", returned=str(part.data_range), reloaded=str(back.data_range)))
+        except KeyboardInterrupt:
+            bad.append(dict(problem="KeyboardInterrupt escaped from tdgl.solve (pause_on_interrupt=False)"))
+        except Exception as e:  # noqa
+            bad.append(dict(problem=f"cancelled real solve: {type(e).__name__}: {str(e)[:120]}"))
     finally:
         import shutil
         shutil.rmtree(td, ignore_errors=True)
